@@ -49,8 +49,21 @@ def close(a, b, rtol, atol=0.0):
     return bool(torch.all((a - b).abs() <= rtol * b.abs() + atol))
 
 
+def build(case):
+    """half of the complex states are built from a user-supplied BinaryRBM (module=...) and then given their phase parameters"""
+    if case["type"] == "complex" and case["row"] % 2 == 1:
+        from qucumber.nn_states import ComplexWaveFunction
+        from qucumber.rbm import BinaryRBM
+        mod = BinaryRBM(case["n"], case["nh"], gpu=False)
+        gen.set_net(mod, case["am"])
+        st_ = ComplexWaveFunction(case["n"], gpu=False, module=mod)
+        gen.set_net(st_.rbm_ph, case["ph"])
+        return st_
+    return gen.build_state(case)
+
+
 def check(case):
-    state = gen.build_state(case)
+    state = build(case)
     r = check_round(case, state)
     # history without any parameter change: other public read-only operations (metrics, sampling, observables, rotation) in
     # between must not disturb what the state reports afterwards
@@ -92,7 +105,7 @@ def interleave_readonly(case, state):
         UN.rotate_psi(state, "X" * n, space, unitaries=UN.create_dict())
     if case.get("am2"):
         # a second object of the same class and sizes but other parameters is evaluated in between (shared / class-level state)
-        other = gen.build_state(dict(case, am=case["am2"]))
+        other = build(dict(case, am=case["am2"]))
         other.normalization(space); other.psi(space); other.probability(space); other.sample(1, num_samples=2)
 
 
